@@ -313,6 +313,10 @@ def _(c):
     orb[3] = 2 * math.pi * rng.random()
     orb[4] = 2 * math.pi * rng.random()
     orb[5] = (1 + 15 * rng.random()) * 2 * math.pi / 86400.0
+    # the epoch handed over under each of the six scale labels in turn (the same instant): the message must announce the scale its EPOCH is written in
+    lab = ["UTC", "TAI", "TT", "GPS", "UT1", "TDB"][k % 6]
+    if lab != "UTC":
+        orb.date = orb.date.change_scale(lab)
     cov = c.integer("cov")
     _attach_cov(orb, {0: 0, 1: 1, 2: 2, 3: 3}[cov], k)
     ud = c.integer("ud")
